@@ -273,7 +273,7 @@ theorem C15_block_pruning_sound {σ} (A : Automaton σ) (hA : A.CanMatchSound) (
     (hacc : A.accepts key = true) : canBlockMatch A prevSep sep = true :=
   canBlockMatch_sound A hA prevSep sep key h1 h2 hacc
 
-theorem search_eq_filter {σ V} (A : Automaton σ) (m : Assoc V) (lo hi : Bound) :
+theorem C15_search_eq_filter {σ V} (A : Automaton σ) (m : Assoc V) (lo hi : Bound) :
     search A m lo hi = m.filter (fun e => passes A lo hi e.1) := by
   unfold search range passes
   rw [List.filter_filter]
@@ -299,7 +299,7 @@ theorem C15_automaton_stream {σ V} (A : Automaton σ) (hA : A.CanMatchSound) (b
         (fun p => matchLo lo p.1.1 && matchHi hi p.1.1 && A.accepts p.1.1)).map
         (fun p => (p.2, p.1.1, p.1.2)) := by
   have v := build_view blockLen m hs
-  rw [search_eq_filter]
+  rw [C15_search_eq_filter]
   unfold Dict.search
   rcases searchBlocks_pruned A hA blockLen m hs lo hi with hp | ⟨hnil, hnone⟩
   · have hflat : ((build blockLen m).blockList.map (·.entries)).flatten = m := v.flat
